@@ -214,8 +214,8 @@ def term(c, rep):
 
 CAPS_QUICK = {"enum": 60, "bin": 300, "cmp": 80, "un": 40, "cmpif": 150, "cmpfi": 150, "mixif": 20, "mixfi": 20, "parse": 50,
               "rng_in": 60, "rng_idx": 60, "rng_slice": 40, "rng_slice_len": 40}
-CAPS_THOROUGH = {"bin": 6000, "cmp": 2000, "cmpif": 2500, "cmpfi": 2500, "mixif": 800, "mixfi": 800, "parse": 2000,
-                 "rng_in": 2000, "rng_idx": 2000}
+CAPS_THOROUGH = {"bin": 4000, "cmp": 1500, "cmpif": 2000, "cmpfi": 2000, "mixif": 600, "mixfi": 600, "parse": 1500,
+                 "rng_in": 1500, "rng_idx": 1500}
 
 
 def mod_sign_ok(c):
@@ -283,7 +283,7 @@ def run(ctx):
     hx = ctx.go_build("c10")
     ctx.log("harness built")
     quick = ctx.quick()
-    nrand = 120 if quick else 2500
+    nrand = 120 if quick else 2000
     dist = {}
     evaluations = 0
     go_bad = 0
@@ -324,7 +324,7 @@ def run(ctx):
     terms, refs = [], []
     per_kind = {}
     for (rep, kind), lst in sorted(pools.items()):
-        cap = CAPS_QUICK.get(kind, 30) if quick else CAPS_THOROUGH.get(kind, 800)
+        cap = CAPS_QUICK.get(kind, 30) if quick else CAPS_THOROUGH.get(kind, 500)
         if len(lst) > cap:
             step = len(lst) / float(cap)
             lst = [lst[int(i * step)] for i in range(cap)]
